@@ -29,6 +29,8 @@ RULES = {
     "header is present and is not one of the canonical valid samples, or the path/query/body is non-ASCII or mutated",
     "sweep": "enumerated: every value of the per-header dictionaries (valid and hostile, plus dates at the edges of the representable range with "
     "every kind of zone) as the only header of a request, through every request accessor",
+    "body_sweep": "enumerated: every dictionary body (urlencoded incl. thousands of fields, malformed multipart, hostile JSON) under its matching content type, whole and in two "
+    "messages, and every urlencoded one as query string, through every request accessor",
     "sweep_apps": "enumerated: the same single-header requests aimed at an existing file, a directory and a typed route of the bundled applications",
     "apps": "Hypothesis: the same hostile paths/headers against Router (one route per convertor type), Subpaths, Hosts, Files, Pages and "
     "FileResponse on both interfaces",
@@ -315,7 +317,7 @@ def oracle_parsers(case) -> Result:
     return r
 
 
-SUBS = {"request": oracle_request, "apps": oracle_apps, "parsers": oracle_parsers, "sweep": oracle_request, "sweep_apps": oracle_apps}
+SUBS = {"request": oracle_request, "apps": oracle_apps, "parsers": oracle_parsers, "sweep": oracle_request, "sweep_apps": oracle_apps, "body_sweep": oracle_request}
 
 # ------------------------------------------------------------------------------------------
 # generators
@@ -346,7 +348,7 @@ HOSTILE = {
                      "multipart/form-data; boundary=b; charset=utf-16", "application/json; charset=idna", "application/json; charset=unicode_escape",
                      "application/x-www-form-urlencoded; charset=undefined", "application/json; charset=zlib", "multipart/form-data; boundary=b; charset=hex"],
     "Content-Length": ["-1", "abc", "9" * 5000, "1.5", "١٢", "", " ", "0x10", "1e3", "٣"],
-    "Cookie": ["", ";", "=", "a", "a=\"", "a=\\", "a=\"\\", "a=\"\\07", "a=\"\\9\"", "=;=;", ";" * 300, "a=\xff", "a=" + "\\" * 99, 'a="\\"'],
+    "Cookie": ["", ";", "=", "a", "a=\"", "a=\\", "a=\"\\", "a=\"\\07", "a=\"\\9\"", "=;=;", ";" * 300, "a=\xff", "a=" + "\\" * 99, 'a="\\"', "a=1; " * 1500, ";" * 3000, "=" * 3000, "a=" + "\\" * 2001, 'a="' + "\\0" * 1500 + '"'],
     "Date": ["Wed, 21 Oct 2015 07:28:00 -0000", "Wed, 21 Oct 2015 07:28:00", "Wed, 21 Oct 2015 07:28:00 XYZ", "", "x", "Wed, 21 Oct 2015 07:28:00 +9999999999", "Wed, 21 Oct 99999 07:28:00 GMT", "Wed, 32 Oct 2015 07:28:00 GMT", "0", "Wed, 21 Oct 2015 25:61:61 GMT",
              "Wed, 21 Oct 2015 07:28:00 -" + "9" * 50, "21 Oct 0000 00:00:00 GMT", "Wed, 21 Oct 2015 07:28:00 GMT" * 10, "1 Jan 1 0:0:0 +9999", "Thu, 01 Jan 1970 00:00:00 -2400",
              "Mon, 01 Jan 0001 00:00:00 +0100", "Fri, 31 Dec 9999 23:59:59 -0100", "\x00", "Wed, 21 Oct 2015 07:28:00 " + "9" * 400],
@@ -397,9 +399,22 @@ _paths = st.one_of(
     st.binary(max_size=20).map(lambda b: b"/" + b),
 )
 _queries = st.one_of(
-    st.sampled_from([b"", b"a=1", b"a=1&a=2", b"\xff", b"a=\xff&\xc3=1", b"%", b"%zz=%", b"=", b"&&&", b"a=" + b"9" * 5000, b"a" * 3000, b"\x00", b"a=b;c=d", b"?", b"#", b"a[]=1&a[]=2"]),
+    st.sampled_from([b"&" * 1500, b"a=1&" * 1200, b";" * 1500, b"", b"a=1", b"a=1&a=2", b"\xff", b"a=\xff&\xc3=1", b"%", b"%zz=%", b"=", b"&&&", b"a=" + b"9" * 5000, b"a" * 3000, b"\x00", b"a=b;c=d", b"?", b"#", b"a[]=1&a[]=2"]),
     st.binary(max_size=20),
 )
+
+
+URLENC_BODIES = [b"a=1&b=2", b"a=%ff&%zz", b"\xff=\xfe", b"a=" + b"x" * 500, b"&", b"a=1;b=2", b"=%", b"a=%E4%B8",
+    # very many fields / separators (standard-library parsers have field-count limits that raise ValueError)
+    b"&" * 1500, b"a=1&" * 1200, b";" * 1500, b"a&" * 5000, b"=&" * 1001, b"k=v&" * 999 + b"k=v", b"%26" * 2000]
+MULTIPART_BAD_BODIES = [
+    b"--b\r\nno-colon-header\r\n\r\nx\r\n--b--", b"--b\r\nContent-Type: text/plain\r\n\r\nx\r\n--b--", b"--b\r\nContent-Disposition: form-data\r\n\r\nx\r\n--b--",
+    b"--b\r\nContent-Disposition: form-data; name=\"a\"\r\n\r\n", b"--b\r\n", b"--b", b"--b--", b"--b\r\n\r\n\r\n--b--", b"--b\r\n: x\r\n\r\ny\r\n--b--",
+    b"--b\r\nContent-Disposition: form-data; name=\"\xff\"; filename=\"\xfe\"\r\n\r\n\xfd\r\n--b--", b"--b\r\nContent-Disposition\r\n\r\nx\r\n--b--",
+    b"--b\r\nContent-Disposition: form-data; name=a; filename\r\n\r\nx\r\n--b--", b"--b\r\nContent-Disposition: ; =; ==\"\r\n\r\nx\r\n--b--", b"--b\r\n\xff\xfe: \xfd\r\n\r\nx\r\n--b--",
+    b"--b\r\nContent-Disposition: form-data; name=\"a\"\r\n \r\n\tx\r\n\r\ny\r\n--b--", b"--b\r\nA:1\r\n" * 300 + b"\r\nx\r\n--b--", b"\r\n--b--\r\n--b\r\n",
+]
+JSON_BAD_BODIES = [b"", b"{", b"[" * 100000, b"9" * 5000, b'{"a": 1e999999}', b"\xff\xfe", b'"\\ud800"', b"nul", b"[1,]", b'{"a":' * 2000 + b"1" + b"}" * 2000, b"-" + b"9" * 4301, b"NaN", b"\xef\xbb\xbf{}", b'"\\u00"', b"{} x"]
 
 
 def _bodies(draw, ctype: str):
@@ -413,7 +428,7 @@ def _bodies(draw, ctype: str):
     if kind <= 1:
         raw = json.dumps(draw(gen.json_values), ensure_ascii=draw(st.booleans())).encode("utf-8")
     elif kind == 2:
-        raw = draw(st.sampled_from([b"a=1&b=2", b"a=%ff&%zz", b"\xff=\xfe", b"a=" + b"x" * 500, b"&", b"a=1;b=2", b"=%", b"a=%E4%B8"]))
+        raw = draw(st.sampled_from(URLENC_BODIES))
     elif kind == 3:
         form = draw(gen.forms(max_parts=3, max_pieces=3))
         form["boundary"] = "b"
@@ -422,15 +437,9 @@ def _bodies(draw, ctype: str):
                 p["content"] = p["content"].replace(b"--b", b"")
         raw = mref.encode(form)
     elif kind == 4:
-        raw = draw(st.sampled_from([
-            b"--b\r\nno-colon-header\r\n\r\nx\r\n--b--", b"--b\r\nContent-Type: text/plain\r\n\r\nx\r\n--b--", b"--b\r\nContent-Disposition: form-data\r\n\r\nx\r\n--b--",
-            b"--b\r\nContent-Disposition: form-data; name=\"a\"\r\n\r\n", b"--b\r\n", b"--b", b"--b--", b"--b\r\n\r\n\r\n--b--", b"--b\r\n: x\r\n\r\ny\r\n--b--",
-            b"--b\r\nContent-Disposition: form-data; name=\"\xff\"; filename=\"\xfe\"\r\n\r\n\xfd\r\n--b--", b"--b\r\nContent-Disposition\r\n\r\nx\r\n--b--",
-            b"--b\r\nContent-Disposition: form-data; name=a; filename\r\n\r\nx\r\n--b--", b"--b\r\nContent-Disposition: ; =; ==\"\r\n\r\nx\r\n--b--", b"--b\r\n\xff\xfe: \xfd\r\n\r\nx\r\n--b--",
-            b"--b\r\nContent-Disposition: form-data; name=\"a\"\r\n \r\n\tx\r\n\r\ny\r\n--b--", b"--b\r\nA:1\r\n" * 300 + b"\r\nx\r\n--b--", b"\r\n--b--\r\n--b\r\n",
-        ]))
+        raw = draw(st.sampled_from(MULTIPART_BAD_BODIES))
     elif kind == 5:
-        raw = draw(st.sampled_from([b"", b"{", b"[" * 100000, b"9" * 5000, b'{"a": 1e999999}', b"\xff\xfe", b'"\\ud800"', b"nul", b"[1,]", b'{"a":' * 2000 + b"1" + b"}" * 2000, b"-" + b"9" * 4301, b"NaN", b"\xef\xbb\xbf{}", b'"\\u00"', b"{} x"]))
+        raw = draw(st.sampled_from(JSON_BAD_BODIES))
     elif kind == 6:
         raw = draw(st.binary(max_size=60))
     else:
@@ -573,9 +582,24 @@ def sweep_cases(for_apps: bool):
                 yield {"request": rq, "hostile": True, "labels": [f"sweep={name}"]}
 
 
+def body_sweep_cases():
+    """Every dictionary body under its matching content type (and the urlencoded ones also as query string)."""
+    pairs = [("application/x-www-form-urlencoded", b) for b in URLENC_BODIES] + [("application/x-www-form-urlencoded; charset=utf-8", b) for b in URLENC_BODIES]
+    pairs += [('multipart/form-data; boundary="b"', b) for b in MULTIPART_BAD_BODIES] + [("application/json", b) for b in JSON_BAD_BODIES]
+    for ctype, body in pairs:
+        for chunks in ([body], [body[: len(body) // 2], body[len(body) // 2:]]):
+            rq = gw.areq(method="POST", headers=[["Content-Type", ctype]], body=chunks, query=b"", path_bytes=b"/", path="/")
+            yield {"request": rq, "hostile": True, "labels": ["body-sweep"]}
+    for q in URLENC_BODIES:
+        rq = gw.areq(method="GET", headers=[], body=[b""], query=q, path_bytes=b"/", path="/")
+        yield {"request": rq, "hostile": True, "labels": ["query-sweep"]}
+
+
 def run(rec, only=None):
     quick = rec.tier == "quick"
     mb = 2 if quick else 12
+    core.drive_cases(rec, "body_sweep", body_sweep_cases(), oracle_request)
+    rec.exhaustive["body_sweep"] = True
     core.drive_cases(rec, "sweep", sweep_cases(False), oracle_request)
     core.drive_cases(rec, "sweep_apps", sweep_cases(True), oracle_apps)
     rec.exhaustive["sweep"] = rec.exhaustive["sweep_apps"] = True
